@@ -47,7 +47,13 @@ func (t *Timer) Set(dur time.Duration, cb func()) error {
 	if err == nil {
 		// TODO error checking here
 		t.slot.Set(ReadEvent, func(error) {
-			_, _ = syscall.Read(t.fd, t.b[:])
+			_, err := syscall.Read(t.fd, t.b[:])
+			if err == syscall.EAGAIN {
+				// Not expired: this is a stale event from the current poll cycle. The timer expired, and
+				// an earlier handler of the same cycle cancelled and re-armed it. Keep waiting.
+				_ = t.poller.SetRead(&t.slot)
+				return
+			}
 			cb()
 		})
 		err = t.poller.SetRead(&t.slot)
